@@ -100,6 +100,7 @@ class Ctx:
         with BuildLock():
             mk = os.path.join(COQ, "Makefile")
             proj = os.path.join(COQ, "_CoqProject")
+            gen_coqproject()
             if not os.path.exists(mk) or os.path.getmtime(mk) < os.path.getmtime(proj):
                 rc, out, _ = sh("coq_makefile -f _CoqProject -o Makefile", cwd=COQ)
                 if rc != 0:
@@ -300,6 +301,25 @@ class Ctx:
               "broken_obligations": self.broken, "notes": self.notes}
         with open(os.path.join(VERIF, "evidence", f"{self.pid}.json"), "w") as f:
             json.dump(ev, f, indent=1)
+
+
+def gen_coqproject():
+    """_CoqProject lists every .v under coq/theories (write-if-changed)."""
+    vs = []
+    for root, _d, files in os.walk(os.path.join(COQ, "theories")):
+        for f in files:
+            if f.endswith(".v") and not f.startswith("."):
+                vs.append(os.path.relpath(os.path.join(root, f), COQ))
+    content = ("-Q theories TeosModel\n"
+               "-arg -w -arg -notation-overridden,-deprecated-hint-without-locality,-deprecated-instance-without-locality\n"
+               + "\n".join(sorted(vs)) + "\n")
+    p = os.path.join(COQ, "_CoqProject")
+    try:
+        if open(p).read() == content:
+            return
+    except OSError:
+        pass
+    open(p, "w").write(content)
 
 
 def strip_coq_comments(src):
